@@ -379,4 +379,68 @@ def qualifySem (w : Table → Row → Val) (cond : Row → B3) (proj : Row → R
 def qualifyRewritten (w : Table → Row → Val) (cond : Row → B3) (proj : Row → Row) (width : Nat) (t : Table) : Table :=
   project (fun r => proj (r.take width)) (select cond (project (fun r => r ++ [w t r]) t))
 
+-- ------------------------------------------------------------------------------------------ alias generation
+/-- `f"{base}_{i}"` -/
+def candidateName (base : String) (i : Nat) : String := base ++ "_" ++ toString i
+
+/-- the `while new in taken` loop of helper.find_new_name, with fuel (the Python loop is unbounded; `taken.length + 1`
+    candidates always contain a free one — pigeonhole, not proved here: exhaustion is an explicit `none`) -/
+def findNewNameFrom (taken : List String) (base : String) : Nat → Nat → Option String
+  | 0, _ => none
+  | fuel + 1, i =>
+    if taken.contains (candidateName base i) then findNewNameFrom taken base fuel (i + 1)
+    else some (candidateName base i)
+
+/-- helper.find_new_name(taken, base) -/
+def findNewName (taken : List String) (base : String) : Option String :=
+  if taken.contains base then findNewNameFrom taken base (taken.length + 1) 2 else some base
+
+/-- the hoisting loop of transforms.eliminate_qualify: every window of the QUALIFY condition becomes a projection
+    `alias = find_new_name(expression.named_selects, "_w")`; `named_selects` is re-read after each append, i.e. the
+    alias just generated is taken for the next window -/
+def hoistAliases (base : String) : List String → Nat → Option (List String)
+  | _, 0 => some []
+  | taken, k + 1 =>
+    match findNewName taken base with
+    | none => none
+    | some a => (hoistAliases base (taken ++ [a]) k).map (fun rest => a :: rest)
+
+-- ------------------------------------------------------------------------------------------ DISTINCT ON / QUALIFY with ORDER BY and LIMIT
+/-- DISTINCT ON (key): the first row of every key in the order given -/
+def firstPerKeyAux (key : Row → Val) (seen : List Val) : Table → Table
+  | [] => []
+  | r :: rs => if seen.contains (key r) then firstPerKeyAux key seen rs
+               else r :: firstPerKeyAux key (key r :: seen) rs
+
+def firstPerKey (key : Row → Val) (t : Table) : Table := firstPerKeyAux key [] t
+
+/-- ROW_NUMBER() OVER (PARTITION BY key ORDER BY <the order of the list>) = 1 -/
+def rowNumberOneAux (key : Row → Val) (pre : Table) : Table → Table
+  | [] => []
+  | r :: rs => if (pre.filter (fun p => key p == key r)).length + 1 == 1 then r :: rowNumberOneAux key (r :: pre) rs
+               else rowNumberOneAux key (r :: pre) rs
+
+def rowNumberOne (key : Row → Val) (t : Table) : Table := rowNumberOneAux key [] t
+
+/-- SELECT DISTINCT ON (key) … ORDER BY ord LIMIT lim — `ord` is the ORDER BY as a function on tables -/
+def distinctOnOriginal (key : Row → Val) (ord : Table → Table) (lim : Option Nat) (t : Table) : Table :=
+  limitOffset lim 0 (firstPerKey key (ord t))
+
+/-- `eliminate_distinct_on`: the ORDER BY moves into the window, the LIMIT stays in the (now unordered) subquery,
+    the outer query filters `_row_number = 1` and has no ORDER BY (its result is defined as a bag only) -/
+def distinctOnEliminated (key : Row → Val) (ord : Table → Table) (lim : Option Nat) (t : Table) : Table :=
+  rowNumberOne key (ord (limitOffset lim 0 t))
+
+/-- SELECT proj … QUALIFY cond(window) ORDER BY ord LIMIT lim, on rows extended by the window column -/
+def qualifyOriginal (w : Table → Row → Val) (cond : Row → B3) (proj : Row → Row) (width : Nat)
+    (ord : Table → Table) (lim : Option Nat) (t : Table) : Table :=
+  project (fun r => proj (r.take width))
+    (limitOffset lim 0 (ord (select cond (project (fun r => r ++ [w t r]) t))))
+
+/-- `eliminate_qualify`: ORDER BY and LIMIT stay INSIDE the subquery, the filter on the window column runs outside -/
+def qualifyEliminated (w : Table → Row → Val) (cond : Row → B3) (proj : Row → Row) (width : Nat)
+    (ord : Table → Table) (lim : Option Nat) (t : Table) : Table :=
+  project (fun r => proj (r.take width))
+    (select cond (limitOffset lim 0 (ord (project (fun r => r ++ [w t r]) t))))
+
 end SqlglotModel.Transpile
